@@ -27,6 +27,48 @@ def sh(cmd, cwd=None, env=None, timeout=None, inp=None):
     return p.returncode, p.stdout
 
 
+def run_harness(args, out_path, stats_path, timeout):
+    """run a harness process under an address-space limit; if it dies (panic outside a guarded call,
+    out of memory, watchdog exit 3 after a call into the real code did not return, timeout) the lines
+    recorded so far are kept and a synthetic monitor line is appended, so that the death is REPORTED by
+    the normal diff path instead of breaking the check.  Returns (crashed, description)."""
+    import resource
+
+    def lim():
+        try:
+            resource.setrlimit(resource.RLIMIT_AS, (24 << 30, 24 << 30))
+        except Exception:
+            pass
+    env = dict(GOENV)
+    env.setdefault("GOMEMLIMIT", "8GiB")
+    try:
+        p = subprocess.run(args, env=env, timeout=timeout, stdout=subprocess.PIPE, stderr=subprocess.STDOUT, text=True, preexec_fn=lim)
+        rc, out = p.returncode, p.stdout
+    except subprocess.TimeoutExpired as e:
+        rc, out = -1, "timeout after %ss" % timeout + ((e.stdout or b"").decode("utf-8", "replace")[-800:] if isinstance(e.stdout, bytes) else (e.stdout or "")[-800:])
+    if rc == 0:
+        return False, ""
+    tail = [l for l in out.strip().split("\n") if l.strip()]
+    why = "; ".join(tail[:3] + tail[-2:])[:600] if tail else ""
+    # drop a truncated last line, then append the synthetic monitor line (exit 3 = the watchdog already wrote `mon HANG`)
+    data = open(out_path).read() if os.path.exists(out_path) else ""
+    if data and not data.endswith("\n"):
+        data = data[:data.rfind("\n") + 1]
+    if rc != 3:
+        data += "mon CRASH | the harness process died while driving the real code (rc=%d): %s\n" % (rc, why.replace("|", "/"))
+    with open(out_path, "w") as f:
+        f.write(data)
+    if not os.path.exists(stats_path) or os.path.getsize(stats_path) == 0:
+        cases = data.count("\ncase ") + (1 if data.startswith("case ") else 0)
+        json.dump(dict(component="?", cases=cases, ops=0, distinct_cases=cases, distinct_nontrivial=0, op_kinds={}, outcomes={},
+                       branches={}, sizes={}, samples=[], per_op=False, notes=["harness died: statistics reconstructed"]), open(stats_path, "w"))
+    return True, "rc=%d %s" % (rc, why)
+
+
+def crash_diff(d):
+    return d["op"].startswith("mon HANG") or d["op"].startswith("mon CRASH")
+
+
 class Lock:
     def __init__(self, name):
         os.makedirs(WORK, exist_ok=True)
@@ -479,13 +521,15 @@ def stage_seq(run, cfg, sq):
     stats = os.path.join(run.work, comp + ".stats.json")
     args = [seqbin, comp, "-seed", str(run.seed), "-tier", run.tier, "-out", ops, "-stats", stats,
             "-corpus", os.path.join(HARNESS, "corpus", run.pid)] + list(sq.get("args", ()))
-    rc, out = sh(args, env=GOENV, timeout=sq.get("timeout", 3000))
-    if rc != 0:
-        raise Broken(f"harness seq {comp} failed rc={rc}: {out[-1500:]}")
+    crashed, why = run_harness(args, ops, stats, sq.get("timeout", 3000))
+    if crashed:
+        decisive0 = decisive
+        decisive = lambda d: d["op"].startswith("mon HANG") or decisive0(d)
+        run.cov.setdefault("notes", []).append(f"harness seq {comp} died: {why}")
     diffs, done = run_driver(drv, ops)
     ign = sq.get("ignore")
     if ign:
-        diffs = [d for d in diffs if not ign(d)]
+        diffs = [d for d in diffs if crash_diff(d) or not ign(d)]
     st = json.load(open(stats))
     run.cov["evaluations"] += st["ops"] if st.get("per_op") else st["cases"]
     run.cov["distinct_nontrivial"] += st["distinct_nontrivial"]
@@ -563,12 +607,14 @@ def stage_conc(run, cfg, cq):
     trace = os.path.join(run.work, comp + ".trace")
     stats = os.path.join(run.work, comp + ".stats.json")
     args = [concbin, comp, "-seed", str(run.seed), "-tier", run.tier, "-out", trace, "-stats", stats] + list(cq.get("args", ()))
-    rc, out = sh(args, env=GOENV, timeout=cq.get("timeout", 3000))
-    if rc != 0:
-        raise Broken(f"harness conc {comp} failed rc={rc}: {out[-1500:]}")
+    crashed, why = run_harness(args, trace, stats, cq.get("timeout", 3000))
+    if crashed:
+        decisive0 = decisive
+        decisive = lambda d: d["op"].startswith("mon HANG") or decisive0(d)
+        run.cov.setdefault("notes", []).append(f"harness conc {comp} died: {why}")
     diffs, done = run_driver(drv, trace)
     if ign:
-        diffs = [d for d in diffs if not ign(d)]
+        diffs = [d for d in diffs if crash_diff(d) or not ign(d)]
     st = json.load(open(stats))
     run.cov["evaluations"] += st["cases"]
     run.cov["distinct_nontrivial"] += st["distinct_nontrivial"]
